@@ -1,6 +1,8 @@
 package gen
 
 import (
+	"context"
+	"time"
 	"bufio"
 	_ "embed"
 	"encoding/json"
@@ -12,6 +14,7 @@ import (
 	"sort"
 	"strings"
 
+	"verifharness/evid"
 	"verifharness/gen/rt"
 	"verifharness/ygo"
 )
@@ -215,6 +218,8 @@ type Out struct {
 	Dump  [][]int    `json:"dump,omitempty"`
 	Trans []int      `json:"trans,omitempty"`
 	Err   string     `json:"err,omitempty"`
+	Job   int        `json:"job"`
+	Pos   int        `json:"pos"`
 	History []string    `json:"history,omitempty"`
 	Results []rt.Result `json:"results,omitempty"`
 }
@@ -278,9 +283,9 @@ func (b *Batch) RunSched(jobs []SchedJob, race bool, f func(o *SchedOut)) (strin
 		bin = "drv-race"
 		env = append(os.Environ(), "GOMAXPROCS=8", "GORACE=exitcode=66 halt_on_error=0", "TMPDIR="+b.Dir)
 	}
-	cmd := exec.Command(filepath.Join(b.Dir, bin), "sched", jp, op)
-	cmd.Dir = b.Dir
-	cmd.Env = env
+	ctx, cancel := context.WithTimeout(context.Background(), 20*time.Minute)
+	defer cancel()
+	cmd := evid.Guarded(ctx, 1800, b.Dir, env, filepath.Join(b.Dir, bin), "sched", jp, op)
 	out, runErr := cmd.CombinedOutput()
 	of, err := os.Open(op)
 	if err == nil {
@@ -298,42 +303,71 @@ func (b *Batch) RunSched(jobs []SchedJob, race bool, f func(o *SchedOut)) (strin
 }
 
 // RunGo executes the jobs in the driver binary and streams the results to f.
+// If a generated parser hangs (the driver's watchdog ends the process with
+// status 98 after naming the parse), the hung input is reported to f as a
+// result of class "hang", the remaining inputs of that job are skipped, and
+// the driver is started again with the following jobs.
 func (b *Batch) RunGo(jobs []Job, f func(o *Out)) error {
 	if !b.built {
 		return fmt.Errorf("driver not built")
 	}
-	jp := filepath.Join(b.Dir, "jobs.json")
-	op := filepath.Join(b.Dir, "out.json")
-	jf, err := os.Create(jp)
-	if err != nil {
-		return err
-	}
-	bw := bufio.NewWriter(jf)
-	enc := json.NewEncoder(bw)
-	for _, j := range jobs {
-		enc.Encode(j)
-	}
-	bw.Flush()
-	jf.Close()
-	cmd := exec.Command(filepath.Join(b.Dir, "drv"), jp, op)
-	cmd.Dir = b.Dir
-	cmd.Env = append(os.Environ(), "GOMAXPROCS=2", "TMPDIR="+b.Dir)
-	out, err := cmd.CombinedOutput()
-	if err != nil {
-		return fmt.Errorf("driver run failed: %v\n%s", err, tail(string(out), 3000))
-	}
-	of, err := os.Open(op)
-	if err != nil {
-		return err
-	}
-	defer of.Close()
-	dec := json.NewDecoder(bufio.NewReaderSize(of, 1<<20))
-	for dec.More() {
-		var o Out
-		if err := dec.Decode(&o); err != nil {
+	pending := jobs
+	for round := 0; len(pending) > 0; round++ {
+		if round > 200 {
+			return fmt.Errorf("driver: too many hangs")
+		}
+		jp := filepath.Join(b.Dir, "jobs.json")
+		op := filepath.Join(b.Dir, "out.json")
+		jf, err := os.Create(jp)
+		if err != nil {
 			return err
 		}
-		f(&o)
+		bw := bufio.NewWriter(jf)
+		enc := json.NewEncoder(bw)
+		for _, j := range pending {
+			enc.Encode(j)
+		}
+		bw.Flush()
+		jf.Close()
+		ctx, cancel := context.WithTimeout(context.Background(), 30*time.Minute)
+		cmd := evid.Guarded(ctx, 1800, b.Dir, append(os.Environ(), "GOMAXPROCS=2", "TMPDIR="+b.Dir), filepath.Join(b.Dir, "drv"), jp, op)
+		out, runErr := cmd.CombinedOutput()
+		cancel()
+		code := 0
+		if ee, ok := runErr.(*exec.ExitError); ok {
+			code = ee.ExitCode()
+		} else if runErr != nil {
+			return fmt.Errorf("driver run failed: %v", runErr)
+		}
+		if code != 0 && code != 98 {
+			return fmt.Errorf("driver run failed: exit %d\n%s", code, tail(string(out), 3000))
+		}
+		of, err := os.Open(op)
+		if err != nil {
+			return err
+		}
+		hungJob := -1
+		dec := json.NewDecoder(bufio.NewReaderSize(of, 1<<20))
+		for dec.More() {
+			var o Out
+			if err := dec.Decode(&o); err != nil {
+				break // the watchdog may have cut the last record short
+			}
+			if o.Kind == "hang" {
+				hungJob = o.Job
+				o.Kind = "run"
+				o.Res = &rt.Result{Class: "hang", Panic: "the generated parser does not return (no lexer call, no action for 8 s)"}
+			}
+			f(&o)
+		}
+		of.Close()
+		if code == 0 {
+			return nil
+		}
+		if hungJob < 0 || hungJob >= len(pending) {
+			return fmt.Errorf("driver ended with status 98 without naming the hung parse")
+		}
+		pending = pending[hungJob+1:]
 	}
 	return nil
 }
